@@ -4,13 +4,16 @@ CFG = {
     "properties_file": "Properties/C27.v",
     "corr_files": ["Corr/C27Bytes.v", "Corr/C27.v"],
     "streams": [S("C27", "drive_portmap", 300, 12000)],
-    "rule": "histories of 1-24 events (plus optional pre-registrations) on a fresh Portmapper: RPC call records for program "
+    "rule": "histories of 1-24 events (plus optional pre-registrations) on a fresh Portmapper configured with a listen address "
+            "(unset / 0.0.0.0 / :: / specific IPv4 / specific IPv6 / IPv4-mapped spelling / loopback / host name): RPC call records for program "
             "100000 versions 2/3/4, procedures NULL/SET/UNSET/GETPORT|GETADDR/DUMP with keys drawn from a small per-case pool, "
             "plus unknown programs/versions/procedures, non-call records, rpcvers != 2, credentials/verifiers of 0-400 bytes, "
             "over-long/truncated auth, truncated/trailing arguments, malformed XDR strings (NUL, > 8192, truncated, unpadded), "
             "universal addresses from a boundary list (signs, spaces, Unicode spaces, newlines, underscores, int64 overflow, "
             "IPv6, uint32 wrap) and random ones; callers: loopback v4/v6 (4- and 16-byte forms, zoned), nil, remote v4/v6, "
-            "zoned link-local v6, UDP addresses, other net.Addr with odd String() values; Go-API Register/Unregister. "
+            "zoned link-local v6, UDP addresses, other net.Addr with odd String() values, and peers derived from the configured "
+            "listen address (equal to it in 4-byte / 16-byte / IPv4-mapped / zoned / string form, neighbours of it); "
+            "Go-API Register/Unregister. "
             "A case is non-trivial when the registry changed and (a non-local caller attempted SET/UNSET or a query hit); "
             "distinct = distinct Coq case term",
     "assumptions": [
